@@ -4,4 +4,6 @@ go 1.22.0
 
 require github.com/openconfig/goyang v0.0.0
 
+require github.com/google/go-cmp v0.7.0 // indirect
+
 replace github.com/openconfig/goyang => /repo
